@@ -126,7 +126,12 @@ def run(rep, tier, seed):
         if tspan_arg is not None and not isinstance(tspan_arg[0], float):
             case["tspan_type"] = ("ndarray of " + str(tspan_arg.dtype)) if isinstance(tspan_arg, np.ndarray) else "list of int"
             case["tspan"] = [int(x) for x in tspan_arg]
-        sol, tr = RC.run_rodas(dae, y0, tspan if tspan_arg is None else tspan_arg, optkw, specs)
+        # every third run: the event function returns one preallocated array that it re-uses (D77)
+        reuse = (k % 3 == 1)
+        if reuse:
+            case["event_function"] = "returns a re-used buffer"
+            hist["reused_buffer"] = hist.get("reused_buffer", 0) + 1
+        sol, tr = RC.run_rodas(dae, y0, tspan if tspan_arg is None else tspan_arg, optkw, specs, reuse_buffer=reuse)
         if isinstance(sol, Exception):
             fails.append((case, f"Rodas raised {type(sol).__name__}: {sol}"))
             continue
